@@ -162,4 +162,160 @@ theorem handleHunkLine_hh {cfg : Cfg} {m m' : M} {l : L} {b : Bool} (hc : HHC cf
           rw [h3, hsrcs2]; rfl
         · rw [pend_emit]; exact pend_nil_of_not_hh hst3
 
+-- a line of a hunk body, met while a hunk header is pending ------------------------
+
+theorem nonBody_onlyIn : nonBody Generated.Markers.onlyIn = true := by decide
+
+theorem handleMergeConflict_not_mine' (cfg : Cfg) (m : M) (l : L) (hs : isMergeConflict m.st = false)
+    (hmc : startsWith l.text Generated.Markers.mcBegin = false) : handleMergeConflict cfg m l = .ok (false, m) := by
+  unfold handleMergeConflict
+  split
+  · rfl
+  · split
+    · have : parseMergeMarker l.text Generated.Markers.mcBegin = none := by
+        unfold parseMergeMarker stripPrefix; simp [hmc]
+      simp only [this]
+    · split <;> first
+        | (rename_i hst; rw [hst] at hs; simp [isMergeConflict] at hs)
+        | rfl
+
+/-- a hunk-body line (empty, or starting with ` `, `+`, `-`, `\`; not a commit line, not a 40-hex
+submodule line, not opening a conflict region) met in a hunk state of a non-plain-diff input is
+handled by `handle_hunk_line` and by no handler before it -/
+theorem hunk_body_chain (cfg : Cfg) (m : M) (l : L)
+    (hsrc : m.source ≠ .diffUnified) (hst : isHunkState m.st = true) (hb : HunkBody l)
+    (hsub : l.submodule = none) (hmc : startsWith l.text Generated.Markers.mcBegin = false) :
+    chain cfg l Generated.handlerOrder m =
+      (match handleHunkLine cfg m l with
+       | .ok (_, m') => .ok m'
+       | .error e => .error e) := by
+  have hnd : isDiffHeader m.st = false := by
+    cases hs : m.st <;> simp [hs, isHunkState, isDiffHeader] at hst ⊢
+  have hnm : isMergeConflict m.st = false := by
+    cases hs : m.st <;> simp [hs, isHunkState, isMergeConflict] at hst ⊢
+  have hlt : headerLineTest m = false := by simp [headerLineTest, hnd, hsrc]
+  have e1 := handleCommitMeta_not_mine cfg m l hb.1
+  have e3 := handleDiffHeaderDiff_not_mine cfg m l (startsWith_false_of_bodyHead hb.2 nonBody_diffLine)
+  have e4 := handleFileOperation_not_mine cfg m l (by simp [hlt])
+  have e5 := handleMinusLine_not_mine cfg m l (by simp [minusLineTest, hlt])
+  have e6 := handlePlusLine_not_mine cfg m l (by simp [plusLineTest, hlt])
+  have e7 := handleHunkHeader_not_mine cfg m l (startsWith_false_of_bodyHead hb.2 nonBody_hunkHeader)
+  have e8 := handleModeLine_not_mine cfg m l (startsWith_false_of_bodyHead hb.2 nonBody_oldMode)
+    (startsWith_false_of_bodyHead hb.2 nonBody_newMode)
+  have e9 := handleMisc_not_mine cfg m l (startsWith_false_of_bodyHead hb.2 nonBody_onlyIn)
+    (startsWith_false_of_bodyHead hb.2 nonBody_binaryFiles)
+  have e10 := handleSubmoduleLog_not_mine cfg m l (startsWith_false_of_bodyHead hb.2 nonBody_submoduleLog)
+  have e11 := handleSubmoduleShort_not_mine cfg m l hsub
+  have e12 := handleMergeConflict_not_mine' cfg m l hnm hmc
+  simp only [Generated.handlerOrder, chain, handlerOf, e1, handleDiffStat, e3, e4, e5, e6, e7, e8, e9, e10, e11, e12]
+  unfold handleHunkLine
+  simp only [hst, Bool.not_true, Bool.false_eq_true, if_false]
+  cases hunkLinePre cfg m with
+  | error e => rfl
+  | ok m2 =>
+    simp only
+    cases hunkLinePush cfg m2 l with
+    | error e => rfl
+    | ok m3 => rfl
+
+-- nothing pending: the whole chain ---------------------------------------------------
+
+/-- a line that `handle_hunk_header_line` claims: starts with `@@` and parses as a hunk header -/
+def isHHLine (l : L) : Bool :=
+  startsWith l.text Generated.Markers.hunkHeader && (parseHunkHeader l.text).isSome
+
+/-- effect of a handler / of the chain on the accounting when no header is pending -/
+structure HB (l : L) (m m' : M) (b : Bool) : Prop where
+  n : m'.n = m.n
+  nomc : isMergeConflict m'.st = false
+  pass : b = false → hacct m' = hacct m ∧ pend m' = []
+  eff : (hacct m' = hacct m ∧ pend m' = []) ∨ (hacct m' = hacct m ++ [m.n] ∧ isHHLine l = true)
+
+theorem pend_of_quiet {s s' : State} {m m' : M} (hs : m.st = s) (hs' : m'.st = s') (hq : Quiet s s')
+    (hp : pend m = []) : pend m' = [] := by
+  rcases hq with h | h
+  · unfold pend at hp ⊢; rw [hs', h, ← hs]; exact hp
+  · exact pend_nil_of_not_hh (by rw [hs']; exact h.2)
+
+theorem HB.of_fs {l : L} {m m' : M} {b : Bool} (h : FS pHH m m' b) (hs : isMergeConflict m.st = false)
+    (hp : pend m = []) : HB l m m' b := by
+  have hp' : pend m' = [] := pend_of_quiet rfl rfl h.quiet hp
+  have hacc : hacct m' = hacct m := by
+    unfold hacct hhSrcs hhTL; rw [h.body, hp, hp']
+  exact ⟨h.n, h.nomc hs, fun _ => ⟨hacc, hp'⟩, Or.inl ⟨hacc, hp'⟩⟩
+
+theorem handlerOf_hb {name : String} {hd : Handler} (hn : handlerOf name = some hd)
+    {cfg : Cfg} {m m' : M} {l : L} {b : Bool} (hc : HHC cfg) (hs : isMergeConflict m.st = false) (g : Good m)
+    (hp : pend m = []) (hmc : startsWith l.text Generated.Markers.mcBegin = false)
+    (e : hd cfg m l = .ok (b, m')) : HB l m m' b := by
+  unfold handlerOf at hn
+  split at hn <;> first
+    | (cases hn
+       first
+         | exact HB.of_fs (handleCommitMeta_fs minor_pHH hs e) hs hp
+         | exact HB.of_fs (handleDiffStat_fs minor_pHH hs e) hs hp
+         | exact HB.of_fs (handleDiffHeaderDiff_fs minor_pHH hs e) hs hp
+         | exact HB.of_fs (handleFileOperation_fs minor_pHH hs e) hs hp
+         | exact HB.of_fs (handleMinusLine_fs minor_pHH hs e) hs hp
+         | exact HB.of_fs (handlePlusLine_fs minor_pHH hs e) hs hp
+         | exact HB.of_fs (handleModeLine_fs minor_pHH hs e) hs hp
+         | exact HB.of_fs (handleMisc_fs minor_pHH hs e) hs hp
+         | exact HB.of_fs (handleSubmoduleLog_fs minor_pHH hs e) hs hp
+         | exact HB.of_fs (handleSubmoduleShort_fs minor_pHH hs e) hs hp
+         | exact HB.of_fs (handleMergeConflict_fs minor_pHH hs hmc e) hs hp
+         | exact HB.of_fs (handleGitShowFile_fs minor_pHH hs e) hs hp
+         | exact HB.of_fs (handleBlame_fs minor_pHH hs e) hs hp
+         | exact HB.of_fs (handleGrep_fs minor_pHH hs e) hs hp
+         | exact HB.of_fs (handleShouldSkip_fs minor_pHH hs e) hs hp
+         | exact HB.of_fs (handleEmitUnchanged_fs minor_pHH hs e) hs hp
+         | (-- handle_hunk_header_line
+            obtain ⟨fv, h⟩ := handleHunkHeader_fv (p := pHH) e
+            rcases h with ⟨hb, hm⟩ | ⟨hb, hsw, _, dt, hh, hparse, hst⟩
+            · subst hb; subst hm
+              exact ⟨rfl, hs, fun _ => ⟨rfl, hp⟩, Or.inl ⟨rfl, hp⟩⟩
+            · subst hb
+              have hp' : pend m' = [m.n] := by unfold pend; rw [hst]
+              have hacc : hacct m' = hacct m ++ [m.n] := by
+                unfold hacct hhSrcs hhTL; rw [fv.body, hp, hp']; simp
+              refine ⟨fv.n, by rw [hst]; rfl, fun h => (by cases h), Or.inr ⟨hacc, ?_⟩⟩
+              unfold isHHLine; simp [hsw, hparse])
+         | (-- handle_hunk_line
+            cases hh : isHunkState m.st
+            · unfold handleHunkLine at e
+              simp only [hh, Bool.not_false, if_true] at e
+              cases e
+              exact ⟨rfl, hs, fun _ => ⟨rfl, hp⟩, Or.inl ⟨rfl, hp⟩⟩
+            · obtain ⟨hb, hn', hnomc, hsrcs, hp'⟩ := handleHunkLine_hh hc hh g e
+              have hacc : hacct m' = hacct m := by
+                show hhSrcs m' ++ pend m' = hacct m
+                rw [hsrcs, hp']; simp
+              exact ⟨hn', hnomc, fun _ => ⟨hacc, hp'⟩, Or.inl ⟨hacc, hp'⟩⟩))
+    | cases hn
+
+theorem chain_hb {cfg : Cfg} {l : L} (hc : HHC cfg) (hmc : startsWith l.text Generated.Markers.mcBegin = false) :
+    ∀ (names : List String) {m m' : M}, chain cfg l names m = .ok m' → isMergeConflict m.st = false → Good m →
+    pend m = [] → HB l m m' true
+  | [], m, m', e, hs, g, hp => by
+    simp only [chain] at e; cases e
+    exact ⟨rfl, hs, fun h => (by cases h), Or.inl ⟨rfl, hp⟩⟩
+  | name :: rest, m, m', e, hs, g, hp => by
+    simp only [chain] at e
+    split at e
+    · cases e
+    · rename_i hd hn
+      split at e
+      · cases e
+      · rename_i m1 e1
+        cases e
+        exact handlerOf_hb hn hc hs g hp hmc e1
+      · rename_i m1 e1
+        have c := handlerOf_hb hn hc hs g hp hmc e1
+        have g1 := (handlerOf_step hn e1 g).good
+        obtain ⟨hacc1, hp1⟩ := c.pass rfl
+        have r := chain_hb hc hmc rest e c.nomc g1 hp1
+        refine ⟨r.n.trans c.n, r.nomc, fun h => (by cases h), ?_⟩
+        rcases r.eff with ⟨h1, h2⟩ | ⟨h1, h2⟩
+        · exact Or.inl ⟨h1.trans hacc1, h2⟩
+        · exact Or.inr ⟨by rw [h1, hacc1, c.n], h2⟩
+
 end Machine
